@@ -1035,6 +1035,16 @@ impl MerkleTree {
             let mut instructions: Vec<StoreInfoInstruction> = Vec::new();
             let mut p_nodes: Vec<Node> = Vec::new();
 
+            // The climb below only ends at `root` if it is an ancestor of the requested node
+            if !flat_tree::Iterator::new(root).contains(indexed.index) {
+                return Err(HypercoreError::InvalidOperation {
+                    context: format!(
+                        "Requested node {} is not in the subtree of {}",
+                        indexed.index, root
+                    ),
+                });
+            }
+
             if !indexed.value {
                 let node_or_instruction = self.required_node(iter.index(), nodes)?;
                 match node_or_instruction {
@@ -1089,6 +1099,13 @@ impl MerkleTree {
         let mut iter = flat_tree::Iterator::new(seek_root);
         let mut instructions: Vec<StoreInfoInstruction> = Vec::new();
         let mut seek_nodes: Vec<Node> = Vec::new();
+
+        // The climb below only ends at `root` if it is an ancestor of the seek root
+        if !flat_tree::Iterator::new(root).contains(seek_root) {
+            return Err(HypercoreError::InvalidOperation {
+                context: format!("Seek root {seek_root} is not in the subtree of {root}"),
+            });
+        }
         let node_or_instruction = self.required_node(iter.index(), nodes)?;
         match node_or_instruction {
             Either::Left(instruction) => {
